@@ -158,6 +158,7 @@ static uint32_t rnd32(void) { g_rng ^= g_rng << 13; g_rng ^= g_rng >> 7; g_rng ^
 #define MAXCB 4096
 typedef struct {
 	int used, codec, role;             /* role: 1 enc, 2 dec */
+	int both;                          /* created as OF_ENCODER_AND_DECODER; "role" is how the driver prepared it */
 	of_session_t *ses;
 	int configured, released;
 	uint32_t k, r, n, len, m, N1; int32_t seed;
@@ -536,6 +537,11 @@ static void cmd_params(int sid, uint32_t k, uint32_t r, uint32_t len, uint32_t m
 			for (uint32_t i = k; i < s->n; i++) s->have[i] = ok;
 			jb_printf(",\"cw_ok\":%d", ok);
 			s->lasttab = calloc(k ? k : 1, sizeof(void *));
+			if (s->both) {
+				/* an instance of both roles may also be asked for repair symbols (the application holds the whole block) */
+				s->enc_tab = calloc(s->n, sizeof(void *)); s->enc_libslot = calloc(s->n, sizeof(int));
+				for (uint32_t i = 0; i < s->n; i++) s->enc_tab[i] = s->cw[i];
+			}
 		}
 		for (uint32_t i = 0; i < s->n; i++) memcpy(s->orig[i], s->cw[i], len);
 		if (s->H) emit_H(s);
@@ -611,7 +617,7 @@ static void cmd_release(int sid)
 			void *p = s->lasttab[i]; int pi;
 			if (p && !strcmp(origin_of(s, p, i, &pi), "lib")) { free(p); appowned++; }
 		}
-	if (s->role == 1 && s->enc_tab)
+	if (s->enc_tab)
 		for (uint32_t i = s->k; i < s->n; i++) if (s->enc_libslot[i] && s->enc_tab[i]) { free(s->enc_tab[i]); appowned++; }
 	jb_printf("{\"e\":\"Release\",\"x\":%ld,\"s\":%d,\"appowned\":%ld,\"leak\":%ld,\"leak_bytes\":%ld", g_exec, sid, appowned, live_for(sid), live_bytes_for(sid));
 	emit_common(s, sid, st);
@@ -651,10 +657,11 @@ static void run_line(char *line)
 		s->used = 1; s->codec = (int)AI(1); s->role = (na > 2 && !strcmp(a[2], "enc")) ? 1 : 2;
 		/* "both": an OF_ENCODER_AND_DECODER instance, used in this execution in the role given by a[2] */
 		int both = (na > 3 && !strcmp(a[3], "both"));
+		s->both = both;
 		LIB_ENTER(sid);
 		of_status_t st = of_create_codec_instance(&s->ses, (of_codec_id_t)s->codec, both ? OF_ENCODER_AND_DECODER : s->role == 1 ? OF_ENCODER : OF_DECODER, 0);
 		LIB_LEAVE();
-		jb_printf("{\"e\":\"Create\",\"x\":%ld,\"s\":%d,\"codec\":%d,\"role\":\"%s\",\"null\":%d", g_exec, sid, s->codec, s->role == 1 ? "enc" : "dec", s->ses == NULL);
+		jb_printf("{\"e\":\"Create\",\"x\":%ld,\"s\":%d,\"codec\":%d,\"role\":\"%s\",\"both\":%d,\"null\":%d", g_exec, sid, s->codec, s->role == 1 ? "enc" : "dec", both, s->ses == NULL);
 		if (s->ses && st == OF_STATUS_OK) {
 			/* advertised limits (OF_CTRL_GET_MAX_K / MAX_N); the GF(2^m) codec only knows them once m is set */
 			UINT32 mk = 0, mn = 0; of_status_t s1, s2;
